@@ -317,6 +317,10 @@ func items() []item {
 		{"anon-struct", func() interface{} { return struct{ A string }{"xy"} }},
 		{"shared-ptr", func() interface{} { return sharedInner }},
 		{"invalid-utf8", func() interface{} { return "\xff\xfe" }},
+		{"empty-anon-struct", func() interface{} { return struct{}{} }},
+		{"ptr-empty-anon-struct", func() interface{} { return &struct{}{} }},
+		{"set-of-strings", func() interface{} { return map[string]struct{}{"xy": {}} }},
+		{"emb-hidden", func() interface{} { return gen.MakeEmbHidden("xy", nil, "xy", "q") }},
 	}
 }
 
